@@ -260,10 +260,17 @@ def P_incomplete_meta_invalid_params (tr : Hist) : Prop :=
 versions)": the versions the session's transport serves (F34). -/
 def P_unsupported_version_refused (tv : List String) (tr : Hist) : Prop :=
   ∀ j m o, At tr j m o → New m → metaComplete m.req = true → acceptedBy tv m = false →
+    o.mw = false ∧ Unchanged tr j o ∧ (m.req.hasId = true → o.w = .err (-32022) (some tv))
+/-- F34: a version the SDK knows but the session's transport does not serve is refused in the same way,
+and no user handler runs. -/
+def P_transport_version_refused (tv : List String) (tr : Hist) : Prop :=
+  ∀ j m o, At tr j m o → New m → metaComplete m.req = true → m.mname ≠ "server/discover" →
+    metaVersion m.req ∈ supportedProtocolVersions → metaVersion m.req ∉ tv →
     o.mw = false ∧ o.uh = false ∧ Unchanged tr j o ∧ (m.req.hasId = true → o.w = .err (-32022) (some tv))
+
 /-- "methods removed from that protocol are answered method-not-found". -/
 def P_removed_methods_not_found (tv : List String) (tr : Hist) : Prop :=
-  ∀ j m o, At tr j m o → New m → metaComplete m.req = true → acceptedBy tv m = true → m.mname ∈ specRemoved →
+  ∀ j m o, At tr j m o → New m → metaComplete m.req = true → acceptedBy tv m = true → m.mname ∈ removedNames →
     o.mw = false ∧ (m.req.hasId = true → o.w = .err (-32601) none)
 /-- `server/discover` exists only under the new protocol. -/
 def P_discover_only_new_protocol (tr : Hist) : Prop :=
@@ -274,9 +281,9 @@ def P_discover_only_new_protocol (tr : Hist) : Prop :=
 
 /-- The envelope got past the per-request metadata, the version check, the removed-methods arm and
 the lifecycle gate, on the receiving side in question (`init`: an initialize was accepted). -/
-def PastGate (tv : List String) (init : Bool) (m : Msg) : Prop :=
+def PastChecks (tv : List String) (init : Bool) (m : Msg) : Prop :=
   preemptDrops m.req = false ∧
-  (m.new = true → metaComplete m.req = true ∧ acceptedBy tv m = true ∧ m.mname ∉ specRemoved) ∧
+  (m.new = true → metaComplete m.req = true ∧ acceptedBy tv m = true ∧ m.mname ∉ removedNames) ∧
   (m.side = .server → m.new = false → m.mname ≠ "server/discover" ∧
     (init = true ∨ m.mname ∈ ["initialize", "notifications/initialized", "ping"]))
 
@@ -292,7 +299,7 @@ inductive Rule (tv : List String) (init : Bool) (m : Msg) : W → Prop
       Rule tv init m (refusal m (-32022) (some tv))
   /-- removed from the 2026-07-28 protocol: method not found -/
   | removed : preemptDrops m.req = false → m.new = true → metaComplete m.req = true → acceptedBy tv m = true →
-      m.mname ∈ specRemoved → Rule tv init m (refusal m (-32601) none)
+      m.mname ∈ removedNames → Rule tv init m (refusal m (-32601) none)
   /-- `server/discover` under a legacy protocol: method not found -/
   | discoverLegacy : preemptDrops m.req = false → m.side = .server → m.new = false → m.mname = "server/discover" →
       Rule tv init m (refusal m (-32601) none)
@@ -300,22 +307,22 @@ inductive Rule (tv : List String) (init : Bool) (m : Msg) : W → Prop
   | notInitialized : preemptDrops m.req = false → m.side = .server → m.new = false → m.mname ≠ "server/discover" →
       init = false → m.mname ∉ ["initialize", "notifications/initialized", "ping"] → Rule tv init m (refusal m 0 none)
   /-- "Unknown methods … -32601" -/
-  | unknownMethod : PastGate tv init m → flagsOf m = none → Rule tv init m (refusal m (-32601) none)
+  | unknownMethod : PastChecks tv init m → flagsOf m = none → Rule tv init m (refusal m (-32601) none)
   /-- "an id on a notification-only method … -32600" -/
-  | idOnNotification (f : Flags) : PastGate tv init m → flagsOf m = some f → f.notification = true → m.req.hasId = true →
+  | idOnNotification (f : Flags) : PastChecks tv init m → flagsOf m = some f → f.notification = true → m.req.hasId = true →
       Rule tv init m (.err (-32600) none)
   /-- a call method sent without an id is a notification: nothing is answered -/
-  | callWithoutId (f : Flags) : PastGate tv init m → flagsOf m = some f → f.notification = false → m.req.hasId = false →
+  | callWithoutId (f : Flags) : PastChecks tv init m → flagsOf m = some f → f.notification = false → m.req.hasId = false →
       Rule tv init m .none
   /-- "required params missing … -32600" -/
-  | missingParams (f : Flags) : PastGate tv init m → flagsOf m = some f → f.notification = !m.req.hasId →
+  | missingParams (f : Flags) : PastChecks tv init m → flagsOf m = some f → f.notification = !m.req.hasId →
       f.missingParamsOK = false → (m.req.params = .absent ∨ m.req.params = .null) → Rule tv init m (refusal m (-32600) none)
   /-- "undecodable parameters … -32602" -/
-  | undecodable (f : Flags) : PastGate tv init m → flagsOf m = some f → f.notification = !m.req.hasId →
+  | undecodable (f : Flags) : PastChecks tv init m → flagsOf m = some f → f.notification = !m.req.hasId →
       ¬ (f.missingParamsOK = false ∧ (m.req.params = .absent ∨ m.req.params = .null)) →
       (m.req.params = .objUndecodable ∨ m.req.params = .wrongType) → Rule tv init m (refusal m (-32602) none)
   /-- a well-formed notification is not answered -/
-  | notification (f : Flags) : PastGate tv init m → flagsOf m = some f → f.notification = true → m.req.hasId = false →
+  | notification (f : Flags) : PastChecks tv init m → flagsOf m = some f → f.notification = true → m.req.hasId = false →
       ¬ (f.missingParamsOK = false ∧ (m.req.params = .absent ∨ m.req.params = .null)) →
       ¬ (m.req.params = .objUndecodable ∨ m.req.params = .wrongType) → Rule tv init m .none
 
@@ -345,7 +352,8 @@ def P_of (tv : List String) : Clause → Hist → Prop
   | .initializedAccepted => P_initialized_premature_or_repeated_rejected
   | .pingNotServed => P_ping_always_served
   | .incompleteMeta => P_incomplete_meta_invalid_params
-  | .f34NotRefused | .f34SdkList | .unsupportedVersion => P_unsupported_version_refused tv
+  | .f34NotRefused => P_transport_version_refused tv
+  | .f34SdkList | .unsupportedVersion => P_unsupported_version_refused tv
   | .removedMethod => P_removed_methods_not_found tv
   | .discoverLegacy => P_discover_only_new_protocol
   | .f16 _ | .f17 _ | .codeWrong _ => P_error_codes tv
@@ -465,7 +473,7 @@ theorem crashClause_cases (m : Msg) :
 
 /-! ## `specWire` is the decision table -/
 
-theorem specTail_rule {tv : List String} {init : Bool} {m : Msg} {want : W} (pg : PastGate tv init m)
+theorem specTail_rule {tv : List String} {init : Bool} {m : Msg} {want : W} (pg : PastChecks tv init m)
     (h : specTail m = some want) : Rule tv init m want := by
   unfold specTail at h
   cases hf : flagsOf m with
@@ -529,12 +537,12 @@ theorem specWire_rule {tv : List String} {init : Bool} {m : Msg} {want : W}
       · simp only [hc, Bool.not_true, Bool.false_eq_true, if_false] at h
         by_cases ha : acceptedBy tv m = true
         · simp only [ha, Bool.not_true, Bool.false_eq_true, if_false] at h
-          by_cases hr : specRemoved.contains m.mname = true
+          by_cases hr : removedNames.contains m.mname = true
           · simp only [hr, if_true, Option.some.injEq] at h
             subst h
             exact .removed h1' hn hc ha (by simpa using hr)
           · simp only [hr, Bool.false_eq_true, if_false] at h
-            have hr' : m.mname ∉ specRemoved := by simpa using hr
+            have hr' : m.mname ∉ removedNames := by simpa using hr
             exact specTail_rule ⟨h1', fun _ => ⟨hc, ha, hr'⟩, fun _ hf => (by rw [hn] at hf; cases hf)⟩ h
         · have ha' : acceptedBy tv m = false := by simpa using ha
           simp only [ha', Bool.not_false, if_true, Option.some.injEq] at h
@@ -843,19 +851,16 @@ theorem sound_incompleteMeta (tv : List String) (tr : Hist) (j : Nat) (hf : Fire
   | code m o want _ hat hw hne hc => simp at hc
 
 theorem sound_f34NotRefused (tv : List String) (tr : Hist) (j : Nat) (hf : FiresAt tv tr j .f34NotRefused) :
-    ¬ P_unsupported_version_refused tv tr := by
+    ¬ P_transport_version_refused tv tr := by
   intro hP
   cases fires_fired hf with
   | panic m _ ha hj hc => exact crashClause_ne hc (by simp) (by simp) (by simp) (by simp) (by simp)
   | shape m o _ hat hmem => simp [c02ShapeRules] at hmem
   | c06 m o mon _ hat hmon hside hmem =>
     simp [c06Rules] at hmem
-    obtain ⟨⟨⟨⟨⟨h1, h2⟩, h3⟩, _⟩, h5⟩, h6⟩ := hmem
+    obtain ⟨⟨⟨⟨⟨h1, h2⟩, h3⟩, h4⟩, h5⟩, h6⟩ := hmem
     rw [hmon.htv] at h5 h6
-    have hacc : acceptedBy tv m = false := by
-      have hd : (m.mname == "server/discover") = false := by simpa using h3
-      simp [acceptedBy, hd, h5]
-    obtain ⟨a, b, c, d⟩ := hP j m o hat ⟨hside, h1⟩ h2 hacc
+    obtain ⟨a, b, c, d⟩ := hP j m o hat ⟨hside, h1⟩ h2 h3 h4 h5
     rcases h6 with ((h6 | h6) | h6) | ⟨h6, h7⟩
     · rw [a] at h6; cases h6
     · rw [b] at h6; cases h6
@@ -873,7 +878,7 @@ theorem sound_f34SdkList (tv : List String) (tr : Hist) (j : Nat) (hf : FiresAt 
     simp [c06Rules] at hmem
     obtain ⟨⟨⟨⟨⟨⟨⟨⟨h1, h2⟩, h3⟩, _⟩, _⟩, _⟩, h7⟩, _⟩, h9⟩ := hmem
     rw [hmon.htv] at h3 h9
-    exact h9 ((hP j m o hat ⟨hside, h1⟩ h2 h3).2.2.2 h7)
+    exact h9 ((hP j m o hat ⟨hside, h1⟩ h2 h3).2.2 h7)
   | code m o want _ hat hw hne hc => simp at hc
 
 theorem sound_unsupportedVersion (tv : List String) (tr : Hist) (j : Nat) (hf : FiresAt tv tr j .unsupportedVersion) :
@@ -886,7 +891,7 @@ theorem sound_unsupportedVersion (tv : List String) (tr : Hist) (j : Nat) (hf : 
     simp [c06Rules] at hmem
     obtain ⟨⟨⟨h1, h2⟩, h3⟩, h4⟩ := hmem
     rw [hmon.htv] at h3 h4
-    obtain ⟨a, _, c, d⟩ := hP j m o hat ⟨hside, h1⟩ h2 h3
+    obtain ⟨a, c, d⟩ := hP j m o hat ⟨hside, h1⟩ h2 h3
     rcases h4 with (h4 | h4) | ⟨h4, h5⟩
     · rw [a] at h4; cases h4
     · apply h4; rw [hmon.prev]; exact c
@@ -1008,5 +1013,248 @@ theorem monitor_sound (tv : List String) (tr : Hist) (j : Nat) (cl : Clause) (h 
   | f16 want => exact sound_code tv tr j _ want hf (by simp)
   | f17 want => exact sound_code tv tr j _ want hf (by simp)
   | codeWrong want => exact sound_code tv tr j _ want hf (by simp)
+
+/-! ## Completeness: silence means every clause holds -/
+
+theorem pastChecks_specWire {tv : List String} {init : Bool} {m : Msg} (pg : PastChecks tv init m) :
+    specWire tv init m = specTail m := by
+  obtain ⟨p1, p2, p3⟩ := pg
+  unfold specWire
+  simp only [p1, Bool.false_eq_true, if_false]
+  cases hn : m.new with
+  | true =>
+    obtain ⟨a, b, c⟩ := p2 hn
+    simp [a, b, c]
+  | false =>
+    cases hs : m.side with
+    | client => simp
+    | server =>
+      obtain ⟨d, e⟩ := p3 hs hn
+      have d' : (m.mname == "server/discover") = false := by simpa using d
+      rcases e with e | e
+      · simp [d', e]
+      · have e2 : m.mname = "initialize" ∨ m.mname = "notifications/initialized" ∨ m.mname = "ping" := by simpa using e
+        rcases e2 with e2 | e2 | e2 <;> simp [e2]
+
+/-- The decision table determines `specWire`. -/
+theorem rule_specWire {tv : List String} {init : Bool} {m : Msg} {want : W} (h : Rule tv init m want) :
+    specWire tv init m = some want := by
+  cases h with
+  | preempt h1 => simp [specWire, h1]
+  | metaIncomplete h1 h2 h3 => simp [specWire, h1, h2, h3]
+  | version h1 h2 h3 h4 => simp [specWire, h1, h2, h3, h4]
+  | removed h1 h2 h3 h4 h5 =>
+    simp [specWire, h1, h2, h3, h4, h5]
+  | discoverLegacy h1 h2 h3 h4 => simp [specWire, h1, h2, h3, h4]
+  | notInitialized h1 h2 h3 h4 h5 h6 =>
+    have h4' : (m.mname == "server/discover") = false := by simpa using h4
+    have h6' : (["initialize", "notifications/initialized", "ping"].contains m.mname) = false := by simpa using h6
+    unfold specWire
+    simp only [h1, h2, h3, h4', h5, h6', Bool.false_eq_true, if_false, Bool.false_and, Bool.and_false, Bool.not_false,
+      Bool.and_true, beq_self_eq_true, Bool.true_and, if_true]
+  | unknownMethod pg hf => rw [pastChecks_specWire pg]; simp [specTail, hf]
+  | idOnNotification f pg hf h1 h2 => rw [pastChecks_specWire pg]; simp [specTail, hf, h1, h2, refusal]
+  | callWithoutId f pg hf h1 h2 => rw [pastChecks_specWire pg]; simp [specTail, hf, h1, h2]
+  | missingParams f pg hf h1 h2 h3 =>
+    rw [pastChecks_specWire pg]
+    cases hid : m.req.hasId <;> rw [hid] at h1 <;> rcases h3 with h3 | h3 <;> simp [specTail, hf, h1, h2, h3, hid]
+  | undecodable f pg hf h1 h2 h3 =>
+    rw [pastChecks_specWire pg]
+    have h2' : (!f.missingParamsOK && (m.req.params == PShape.absent || m.req.params == PShape.null)) = false := by
+      cases hb : (!f.missingParamsOK && (m.req.params == PShape.absent || m.req.params == PShape.null)) with
+      | false => rfl
+      | true =>
+        exfalso; apply h2
+        simpa [Bool.and_eq_true, Bool.or_eq_true] using hb
+    cases hid : m.req.hasId <;> rw [hid] at h1 <;> rcases h3 with h3 | h3 <;> simp [specTail, hf, h1, h2', h3, hid] <;>
+      simp [h3] at h2'
+  | notification f pg hf h1 h2 h3 h4 =>
+    rw [pastChecks_specWire pg]
+    have h3' : (!f.missingParamsOK && (m.req.params == PShape.absent || m.req.params == PShape.null)) = false := by
+      cases hb : (!f.missingParamsOK && (m.req.params == PShape.absent || m.req.params == PShape.null)) with
+      | false => rfl
+      | true =>
+        exfalso; apply h3
+        simpa [Bool.and_eq_true, Bool.or_eq_true] using hb
+    have h4' : (m.req.params == PShape.objUndecodable || m.req.params == PShape.wrongType) = false := by
+      cases hb : (m.req.params == PShape.objUndecodable || m.req.params == PShape.wrongType) with
+      | false => rfl
+      | true =>
+        exfalso; apply h4
+        simpa [Bool.or_eq_true] using hb
+    simp [specTail, hf, h1, h2, h3', h4']
+
+/-- What silence at a judged envelope gives. -/
+structure Silent (tv : List String) (tr : Hist) (j : Nat) (m : Msg) (o : MObs) : Prop where
+  shape : ∀ p ∈ c02ShapeRules m o, p.1 = false
+  c06 : m.side = .server → ∃ mon, MonAt tv tr j mon ∧ ∀ p ∈ c06Rules mon m o, p.1 = false
+  code : ∀ want, specWire tv (prevState (tr.take j)).init.isSome m = some want → o.w = want
+
+theorem silent_at {tv : List String} {tr : Hist} (hs : runMon tv tr = none) {j : Nat} {m : Msg} {o : MObs}
+    (hat : At tr j m o) : Silent tv tr j m o := by
+  have hm := runFrom_none tr _ 0 hs j m (.seen o) hat.here
+  obtain ⟨b1, b2, b3⟩ := book tv (tr.take j)
+  have hdead := b2.2 hat.alive
+  obtain ⟨c1, c2⟩ := b3 hat.alive
+  simp only [monitor, hdead, Bool.false_eq_true, if_false] at hm
+  cases h1 : c02Shape m o with
+  | some c => rw [h1] at hm; simp [Option.orElse] at hm
+  | none =>
+    rw [h1] at hm
+    simp only [Option.orElse] at hm
+    cases h2 : c06 (monAfter (monStart tv) (tr.take j)) m o with
+    | some c => rw [h2] at hm; cases hm
+    | none =>
+      rw [h2] at hm
+      simp only at hm
+      refine ⟨firstRule_none h1, ?_, ?_⟩
+      · intro hside
+        refine ⟨_, ⟨b1, c1, c2⟩, ?_⟩
+        unfold c06 at h2
+        simp only [hside, bne_self_eq_false, Bool.false_eq_true, if_false] at h2
+        exact firstRule_none h2
+      · intro want hw
+        unfold c02Code at hm
+        rw [b1, c1, hw] at hm
+        simp only at hm
+        split at hm
+        · rename_i he; simpa using he
+        · split at hm
+          · cases hm
+          · split at hm <;> cases hm
+
+theorem silent_no_crash {tv : List String} {tr : Hist} (hs : runMon tv tr = none) {j : Nat} {m : Msg} {obs : Obs}
+    (ha : Alive (tr.take j)) (hj : tr[j]? = some (m, obs)) : ∃ o, obs = .seen o := by
+  have hm := runFrom_none tr _ 0 hs j m obs hj
+  have hdead := (book tv (tr.take j)).2.1.2 ha
+  simp only [monitor, hdead, Bool.false_eq_true, if_false] at hm
+  cases obs with
+  | seen o => exact ⟨o, rfl⟩
+  | panic => cases hm
+  | stuck => cases hm
+  | unreadable => cases hm
+
+/-- **monitor_complete.** If the monitor run reports nothing on a case, every clause of C06 and of
+C02's part of this stream holds on it. -/
+theorem monitor_complete (tv : List String) (tr : Hist) (hs : runMon tv tr = none) (cl : Clause) : P_of tv cl tr := by
+  have shp : ∀ {j m o}, At tr j m o → _ := fun hat => by
+    have H := (silent_at hs hat).shape
+    simp [c02ShapeRules] at H
+    exact H
+  have c6 : ∀ {j m o}, At tr j m o → m.side = .server → ∃ mon, MonAt tv tr j mon ∧ _ := fun hat hside => by
+    obtain ⟨mon, hmon, H⟩ := (silent_at hs hat).c06 hside
+    simp [c06Rules] at H
+    exact ⟨mon, hmon, H⟩
+  cases cl with
+  | dropped => intro j m o hat hid; exact (shp hat).1 hid
+  | multi =>
+    intro j m o hat n hw
+    have := (shp hat).2.1
+    rw [hw] at this; simp at this
+  | stray =>
+    intro j m o hat n hw
+    have := (shp hat).2.2.1
+    rw [hw] at this; simp at this
+  | notifAnswered => intro j m o hat hid; exact (shp hat).2.2.2.1 hid
+  | malformed => intro j m o hat; exact (shp hat).2.2.2.2
+  | f12 | f13Elicit | f13ElicitComplete | f13Sampling | crash =>
+    intro j m ha hj
+    obtain ⟨o, ho⟩ := silent_no_crash hs ha hj
+    cases ho
+  | tornDown =>
+    intro j m ha hj
+    obtain ⟨o, ho⟩ := silent_no_crash hs ha hj
+    cases ho
+  | unreadable =>
+    intro j m ha hj
+    obtain ⟨o, ho⟩ := silent_no_crash hs ha hj
+    cases ho
+  | f4Served | servedBeforeInit =>
+    intro j m o hat hl hi hp
+    obtain ⟨mon, hmon, _, r2, _⟩ := c6 hat hl.1
+    have hnone := (initSeen_iff hmon).2 hi
+    cases hmw : o.mw with
+    | true => exact absurd (r2 hl.2 hnone (Or.inl hmw)) hp
+    | false =>
+      cases huh : o.uh with
+      | true => exact absurd (r2 hl.2 hnone (Or.inr huh)) hp
+      | false => exact ⟨rfl, rfl⟩
+  | f4Passed =>
+    intro j m o hat hl hi hf hid
+    obtain ⟨mon, hmon, _, _, r3, _⟩ := c6 hat hl.1
+    exact r3 hl.2 ((initSeen_iff hmon).2 hi) hf hid
+  | stateBeforeInit =>
+    intro j m o hat hl hi hne
+    obtain ⟨mon, hmon, _, _, _, r4, _⟩ := c6 hat hl.1
+    unfold Unchanged
+    rw [← hmon.prev]
+    exact Classical.byContradiction fun hc => hne (r4 hl.2 ((initSeen_iff hmon).2 hi) hc)
+  | servedUnopened =>
+    intro j m o hat hl ho hp
+    obtain ⟨mon, hmon, _, _, _, _, r5, _⟩ := c6 hat hl.1
+    have hno := (notOpened_iff hmon).2 ho
+    refine ⟨?_, ?_, ?_⟩
+    · cases hmw : o.mw with
+      | true => exact absurd (r5 hl.2 hno (Or.inl (Or.inl hmw))) hp
+      | false => rfl
+    · cases huh : o.uh with
+      | true => exact absurd (r5 hl.2 hno (Or.inl (Or.inr huh))) hp
+      | false => rfl
+    · intro hc; exact absurd (r5 hl.2 hno (Or.inr hc)) hp
+  | secondInitAccepted =>
+    intro j m o hat hside hn hi
+    obtain ⟨mon, hmon, _, _, _, _, _, r6, _⟩ := c6 hat hside
+    exact r6 hn ((isSome_initSeen hmon).2 hi)
+  | secondInitState =>
+    intro j m o hat hside hn hi
+    obtain ⟨mon, hmon, _, _, _, _, _, _, r7, _⟩ := c6 hat hside
+    unfold Unchanged; rw [← hmon.prev]
+    exact r7 hn ((isSome_initSeen hmon).2 hi)
+  | rejectedInitState =>
+    intro j m o hat hside hn hw
+    obtain ⟨mon, hmon, _, _, _, _, _, _, _, r8, _⟩ := c6 hat hside
+    unfold Unchanged; rw [← hmon.prev]
+    exact r8 hn hw
+  | initializedAccepted =>
+    intro j m o hat hside hn hpre
+    obtain ⟨mon, hmon, _, _, _, _, _, _, _, _, r9, _⟩ := c6 hat hside
+    unfold Unchanged; rw [← hmon.prev]
+    apply r9 hn
+    rcases hpre with h | h
+    · exact Or.inl ((initSeen_iff hmon).2 h)
+    · exact Or.inr (by rw [hmon.prev]; exact h)
+  | pingNotServed =>
+    intro j m o hat hl hn hid h1 h2
+    obtain ⟨mon, hmon, _, _, _, _, _, _, _, _, _, r10, _⟩ := c6 hat hl.1
+    exact r10 hn hl.2 hid h1 h2
+  | incompleteMeta =>
+    intro j m o hat hnw hmc
+    obtain ⟨mon, hmon, _, _, _, _, _, _, _, _, _, _, r11, _⟩ := c6 hat hnw.1
+    obtain ⟨⟨⟨a, b⟩, c⟩, d⟩ := r11 hnw.2 hmc
+    exact ⟨a, b, by unfold Unchanged; rw [← hmon.prev]; exact c, d⟩
+  | f34NotRefused =>
+    intro j m o hat hnw hmc hd hsup hnt
+    obtain ⟨mon, hmon, _, _, _, _, _, _, _, _, _, _, _, r12, _⟩ := c6 hat hnw.1
+    rw [hmon.htv] at r12
+    obtain ⟨⟨⟨a, b⟩, c⟩, d⟩ := r12 hnw.2 hmc hd hsup hnt
+    exact ⟨a, b, by unfold Unchanged; rw [← hmon.prev]; exact c, d⟩
+  | f34SdkList | unsupportedVersion =>
+    intro j m o hat hnw hmc hacc
+    obtain ⟨mon, hmon, _, _, _, _, _, _, _, _, _, _, _, _, _, r14, _⟩ := c6 hat hnw.1
+    rw [hmon.htv] at r14
+    obtain ⟨⟨a, c⟩, d⟩ := r14 hnw.2 hmc hacc
+    exact ⟨a, by unfold Unchanged; rw [← hmon.prev]; exact c, d⟩
+  | removedMethod =>
+    intro j m o hat hnw hmc hacc hr
+    obtain ⟨mon, hmon, _, _, _, _, _, _, _, _, _, _, _, _, _, _, r15, _⟩ := c6 hat hnw.1
+    rw [hmon.htv] at r15
+    exact r15 hnw.2 hmc hacc hr
+  | discoverLegacy =>
+    intro j m o hat hl hn
+    obtain ⟨mon, hmon, _, _, _, _, _, _, _, _, _, _, _, _, _, _, _, r16⟩ := c6 hat hl.1
+    exact r16 hn hl.2
+  | f16 want | f17 want | codeWrong want =>
+    intro j m o hat w hr
+    exact (silent_at hs hat).code w (rule_specWire hr)
 
 end Gate
